@@ -70,6 +70,14 @@ pub struct TxDesc {
     pub inputs: Vec<InDesc>,
     pub outputs: Vec<OutDesc>,
     pub locktime: u32,
+    /// minimum byte width (1,3,5,9) of every CompactSize inside the txid-covered part of this tx;
+    /// 0/1 = canonical. Wider-than-necessary encodings are kept verbatim by the program (VarUint.buf)
+    /// and the txid is the hash of the bytes as stored.
+    #[serde(default, skip_serializing_if = "is_zero_u8")]
+    pub cs_width: u8,
+}
+fn is_zero_u8(x: &u8) -> bool {
+    *x == 0
 }
 
 #[derive(Clone, Serialize, Deserialize, PartialEq, Eq, Debug, Hash)]
